@@ -121,19 +121,26 @@ def _optimize_operator_call_attr(  # pylint: disable=too-many-return-statements
                 return node
             return ast.Compare(arg2, [ast.In()], [arg1])
 
-        if fn.attr == "delitem":
-            target, index = node.args
-            assert len(node.args) == 2
-            return ast.Delete(
-                targets=[ast.Subscript(value=target, slice=index, ctx=ast.Del())]
-            )
-
         if fn.attr == "getitem":
             target, index = node.args
             assert len(node.args) == 2
             return ast.Subscript(value=target, slice=index, ctx=ast.Load())
 
     return node
+
+
+def _is_operator_delitem_call(node: ast.Call) -> bool:
+    """Return True if `node` is a call of `operator.delitem` with two positional
+    arguments."""
+    return (
+        isinstance(node.func, ast.Attribute)
+        and isinstance(node.func.value, ast.Name)
+        and node.func.value.id == OPERATOR_ALIAS
+        and node.func.attr == "delitem"
+        and len(node.args) == 2
+        and not node.keywords
+        and not any(isinstance(arg, ast.Starred) for arg in node.args)
+    )
 
 
 class PythonASTOptimizer(ast.NodeTransformer):
@@ -180,11 +187,23 @@ class PythonASTOptimizer(ast.NodeTransformer):
             new_node,
         )
 
-    def visit_Expr(self, node: ast.Expr) -> ast.Expr | None:
+    def visit_Expr(self, node: ast.Expr) -> ast.stmt | None:
         """Eliminate no-op constant expressions which are in the tree
-        as standalone statements."""
+        as standalone statements.
+
+        Calls to `operator.delitem` standing alone as a statement are replaced by a
+        Python `del` statement. `del` is not an expression, so such calls can only be
+        rewritten here and never where their value is used."""
         if isinstance(node.value, (ast.Constant, ast.Name)):
             return None
+        if isinstance(node.value, ast.Call) and _is_operator_delitem_call(node.value):
+            target, index = node.value.args
+            return ast.copy_location(
+                ast.Delete(
+                    targets=[ast.Subscript(value=target, slice=index, ctx=ast.Del())]
+                ),
+                node,
+            )
         return node
 
     def visit_FunctionDef(self, node: ast.FunctionDef) -> ast.AST | None:
